@@ -21,6 +21,11 @@ fn dispatch(req: &Value) -> Value {
         "detect_style" => ops_case::detect_style(req),
         "variant_map" => ops_case::variant_map(req),
         "acronyms" => ops_case::acronyms(req),
+        "compound_variants" => ops_case::compound_variants(req),
+        "apply_coercion" => ops_case::apply_coercion(req),
+        "coercion_detect" => ops_case::coercion_detect(req),
+        "constraints" => ops_case::constraints(req),
+        "identifiers" => ops_case::identifiers(req),
         // plan / splice / serde
         "splice" => ops_plan::splice(req),
         "patch_headers" => ops_plan::patch_headers(req),
